@@ -105,7 +105,13 @@ class Module:
         params = list(self._parameters.values())
         for m in self.submodules():
             params += m.parameters()
-        return params
+        # a parameter (or a whole submodule) shared between parents is reported once, at its first occurrence
+        unique, seen = [], set()
+        for p in params:
+            if id(p) not in seen:
+                seen.add(id(p))
+                unique.append(p)
+        return unique
     
     def submodules(self) -> list['Module']:
         return [m for m in self._submodules.values()]
